@@ -1329,6 +1329,9 @@ class Exec:
              node: Any = None) -> List[Tuple[State, Any]]:
         if isinstance(f, Fn):
             return self.call_fn(f, pos, kws, kwrest, st, node)
+        if isinstance(f, Builtin) and f.name.startswith("userhook."):
+            from contracts.custom import apply_userhook
+            return apply_userhook(self, f.name.split(".", 1)[1], f.bound, pos, kws, kwrest, st)
         if isinstance(f, Builtin) and f.name == "errformat":
             return self.contracts.apply_abstract(self, "ErrorFormat", {"error": f.bound, "formatter": pos[0]}, st)
         if isinstance(f, Builtin) and f.name == "accept":
